@@ -49,5 +49,5 @@ def plan(tier, ctx):
     # (e) state guard of isal_deflate_set_hufftables
     qs.append(Query("set_hufftables/all_states", R,
                     dict(harness="harness/C18/h_sethuff.c", units=IGZIP_UNITS, defines=FAST, hdefines=[], unwind=17,
-                         witness=True), core=True, family="set_hufftables", weight=3))
+                         flags=["--arrays-uf-always"], witness=True), core=True, family="set_hufftables", weight=3))
     return Plan("C18", "model_checking", qs, functions_encoded=[], bounds={}, stubs=[], assumptions=[], outside=[])
